@@ -22,7 +22,7 @@ META["C11"] = dict(
     level_note="Trusted: the reference model's reading of the statement; histories beyond the bounds are not covered. "
     "Known findings (dotted access through dict values, dict in mixed list) are listed in known_findings.json.",
     shards=g(4, 16),
-    budget=g(40, 300),
+    budget=g(50, 300),
     technique="reference-model monitor (nested dict run in lock-step) + icontract storage invariant on the real Namespace, "
     "over exhaustive short and random long operation histories",
     rule="L1: every operation sequence of length<=4 (quick) / <=5 (thorough) over a seed-rotated alphabet of 14 concrete "
@@ -33,7 +33,7 @@ META["C11"] = dict(
     gates={
         "mon.L1.observer_comparisons": g(20000, 200000),
         "mon.L1.histories_exhaustive": g(5000, 50000),
-        "mon.L1.histories_random": g(300, 3000),
+        "mon.L1.histories_random": g(120, 3000),
         "mon.L2.stepwise_vs_dotted": g(200, 2000),
         "mon.L3.conversions": g(200, 2000),
         "mon.invariant.storage": g(20000, 200000),
@@ -347,7 +347,7 @@ META["C06"] = dict(
     "unmutated configuration was accepted by every channel first.",
     gates={
         "mon.valid_baseline_accepted": g(20, 150),
-        "mon.foreign_key_insertions": g(2000, 40000),
+        "mon.foreign_key_insertions": g(1500, 30000),
         "mon.required_key_mutations": g(300, 6000),
         "st.node.top": g(30, 300), "st.node.group": g(30, 300), "st.node.dataclass": g(30, 300), "st.node.dataclass-nested": g(30, 300),
         "st.node.dataclass-in-list": g(30, 300), "st.node.init_args": g(30, 300), "st.node.init_args-nested": g(30, 300),
